@@ -1,5 +1,8 @@
 //! Defines parser for viseca format.
 
+#[cfg(okane_verif)]
+#[allow(unused_imports)]
+use crate::verif::chrono;
 use std::io::BufRead;
 use std::str::FromStr;
 
